@@ -1,6 +1,6 @@
 #!/bin/bash
 # run every registered quick check and summarise
-cd /verif
+cd "$(dirname "$(readlink -f "$0")")/.."
 for id in $(python3 -c "import json; print(' '.join(c['property_id'] for c in json.load(open('MANIFEST.json'))['checks']))"); do
   out=$(./check $id --tier quick 2>&1); rc=$?
   echo "$id exit=$rc $(echo "$out" | grep -c '^KNOWN-FINDING') known; $(echo "$out" | tail -1)"
